@@ -40,7 +40,7 @@ type replayFile struct {
 
 func (r *Run) replayPath(oblig string) string {
 	n := strings.NewReplacer("/", "_", " ", "_", "(", "", ")", "", "*", "p", "[", "_", "]", "_", ":", "_", ".", "_").Replace(oblig)
-	return filepath.Join(r.Verif, "replay", r.Prop+"-"+n+".json")
+	return filepath.Join(r.Out, "replay", r.Prop+"-"+n+".json")
 }
 
 // cpuLeafAssignments emits Go statements that set every scalar leaf of the CPU
@@ -203,7 +203,7 @@ func (r *Run) reportFailures(ld *Loaded, os_ []*OblResult, compMask func(string)
 		if o.res != nil {
 			rf.Solver = o.res.Backend
 			rf.SolverOut = truncate(o.res.Raw, 3000)
-			rel, _ := filepath.Rel(r.Verif, o.res.File)
+			rel, _ := filepath.Rel(r.Out, o.res.File)
 			rf.SMT = rel
 			for k, v := range o.res.Model {
 				rf.Model[k] = fmt.Sprintf("0x%x", v)
